@@ -16,7 +16,7 @@ import twin
 from twin import QCLS
 
 LEVEL = "proof"
-THEOREMS = ["C07_quote_chars", "C07_ident", "C07_in_context", "C07_qualified_field", "C07_undoubled_refuted", "C07_cte_bare_refuted",
+THEOREMS = ["C07_create_table_shape", "C07_drop_table_shape", "C07_quote_chars", "C07_ident", "C07_in_context", "C07_qualified_field", "C07_undoubled_refuted", "C07_cte_bare_refuted",
             "C07_twin_nonvacuous"]
 PLAIN = re.compile(r"^[A-Za-z_][A-Za-z0-9_]*$")
 
